@@ -14,9 +14,11 @@ C11 — executable models of `container.RingBuffer`, `container.SortedSliceSet` 
   pre-fix `Clear` and the `==`-based compaction are kept as `clearUnfixed` / `compactBy`
   so that the pre-fix behaviour can be stated (see the examples in `Theorems/C11.lean`).
 * Stdlib: `slices.Sort` is insertion sort (any sort gives the same result on a linear
-  order), `slices.BinarySearch` is its contract SORT-1 — the lower bound (number of leading
-  elements `< v`), `slices.Insert/Delete/Clone/Compact/Equal`, `maps.Clone/Equal`, `clear`
-  by their documented results.  Backing-array aliasing of slices is *not* modelled here (a
+  order), `slices.BinarySearch` is the lower bound (number of leading elements `< v`) — both
+  are proved equal to the models of the real functions of `Go/Sort.lean` in
+  `Theorems/C11Sort.lean` (`sort_stdlib`, `binarySearch_lower_bound`);
+  `slices.Insert/Delete/Clone/Compact/Equal`, `maps.Clone/Equal`, `clear` by their documented
+  results.  Backing-array aliasing of slices is *not* modelled here (a
   set is the value of `elems`); it is modelled separately in `Model/C11Heap.lean`.
 -/
 import GolibsVerif.Go.Basic
